@@ -14,13 +14,17 @@ RULE = ("cases i < N_exh enumerate ALL operation histories of length <= L over 4
         "with alphabet add(k)/remove(k)/pop/clear; the rest are seeded random histories of 5-60 ops over 3-14 "
         "events with 1-4 distinct times, int/float/mixed/Duration(mixed units)/huge-int (> 2^53) time types; non-trivial = at least "
         "one successful removal of a non-minimum (interior) event followed by >= 2 pop_first; distinct = distinct "
-        "canonical (events, ops) hash")
+        "canonical (events, ops) hash; the first 8 (quick) / 63 (thorough) random cases put all events at one instant and create 300 .. 2^20 (thorough: 2^24) other events between the first and the second half of them")
 ASSUMPTIONS = ["an event is never added while it is already pending (the statement speaks of a set)",
                "times within one list are mutually comparable (no Duration/float mixes)"]
 
 EXH_EVENTS = [(2, 5), (1, 5), (1, 9), (2, 5)]
 ALPHA = [("add", 0), ("add", 1), ("add", 2), ("add", 3), ("remove", 0), ("remove", 1), ("remove", 2),
          ("remove", 3), ("pop",), ("clear",)]
+
+
+GAPS = {"quick": [2 ** 20 + 77, 2 ** 16 + 5, 2 ** 16 + 5, 70000, 5000, 5000, 1025, 300],
+        "thorough": [2 ** 24 + 9, 2 ** 22 + 3, 2 ** 22 + 3] + [2 ** 20 + 77] * 8 + [2 ** 21 + 1] * 4 + [2 ** 16 + 5] * 16 + [5000] * 16 + [1025] * 16}
 
 
 def _exh_count(L):
@@ -103,7 +107,20 @@ def gen_case(rng, tier, i):
         else:
             ops.append(["clear"])
             present = set()
-    return {"kind": kind, "events": events, "ops": ops, "fam": "rnd"}
+    case = {"kind": kind, "events": events, "ops": ops, "fam": "rnd"}
+    gaps = GAPS[tier]
+    if i - nexh < len(gaps):
+        # a long-lived process: the pending events were created far apart (many other events were created in between, the
+        # creation counter is process-wide); all of them at one instant, so that priority and creation order alone decide
+        for e in events:
+            e[0] = events[0][0]
+            e[1] = rng.choice([4, 5, 5, 6])       # neighbouring priorities
+        events[0][1], events[-1][1] = 5, 6       # (an early event and a late one of the next higher priority)
+        case["gap"] = [nev // 2, gaps[i - nexh]]
+        order = list(range(nev))
+        rng.shuffle(order)
+        case["ops"] = [["add", k] for k in order] + [["peek"], ["pop"], ["pop"]] + ops
+    return case
 
 
 def _num(kind, t):
@@ -138,7 +155,14 @@ def run_case(case, ctx):
     # every third / fifth event is an instance of a model-defined SimEvent subclass (ids must stay unique and in
     # creation order across classes)
     classes = [SimEvent, _subclass(SimEvent, "A"), SimEvent, SimEvent, _subclass(SimEvent, "B")] if case["fam"] == "rnd" else [SimEvent]
-    evs = [classes[k % len(classes)](_mk_time(case["kind"], t), tgt, "m", p) for k, (t, p) in enumerate(case["events"])]
+    evs = []
+    for k, (t, p) in enumerate(case["events"]):
+        if case.get("gap") and k == case["gap"][0]:
+            for _ in range(case["gap"][1]):
+                SimEvent(0.0, tgt, "m")
+            ctx.count("events_created_in_between_(creation_gaps)", case["gap"][1])
+            ctx.seen("creation_gaps", str(case["gap"][1]))
+        evs.append(classes[k % len(classes)](_mk_time(case["kind"], t), tgt, "m", p))
     ids = [e.id for e in evs]
     if len(set(ids)) != len(ids) or ids != sorted(ids):
         ctx.viol("event-ids-not-unique-or-not-in-creation-order", {"ids": ids})
